@@ -14,7 +14,7 @@ LEVEL_TEXT = (
 LEVEL_NOTE = "Trusts CPython fractions/decimal as the exact reference and msdparser as tokenizer for the TimingData clause."
 RULE = (
     "kinds: tick_text (all k/48, |k|<=96000, plus random |k|<=48e7), construct (int/Fraction/pair), "
-    "inexact (float/Decimal/decimal string), arith (pairs of fractions den<=1000 x 9 operators x operand "
+    "inexact (float/Decimal/decimal string), history (one numeric value built through exact and inexact forms in random order within one process), arith (pairs of fractions den<=1000 x 9 operators x operand "
     "types), beatvalues (random event lists, six-place decimals), timing_string (blanks/line breaks "
     "around rows), timingdata (strings through a parsed SM/SSC simfile). A case is non-trivial unless it "
     "is the zero beat / empty list; distinct by its canonical JSON."
@@ -24,7 +24,7 @@ ASSUMPTIONS = [
     "fractions.Fraction and decimal.Decimal are exact",
     "msdparser tokenizes '#KEY:value;' texts without the excluded metacharacters correctly",
 ]
-MONITORS = ["tick_text", "construct", "inexact", "arith", "beatvalues", "timing_string", "timingdata"]
+MONITORS = ["tick_text", "construct", "inexact", "arith", "history", "beatvalues", "timing_string", "timingdata"]
 REQUIRED = ["arith_mixed_int", "arith_mixed_fraction", "inexact_half_tick_boundary", "timing_string_linebreaks"]
 
 TICK_LIMIT = 96000
@@ -80,6 +80,16 @@ def cases(ctx):
     n = ctx.split(3000 if quick else 16 * 200000)
     for _ in range(n // 10):
         yield {"kind": "tick_text_list", "ks": [rng.randint(-48 * 10**7, 48 * 10**7) for _ in range(40)]}
+    for i in range(n // 6):
+        # the same numeric value built through different forms, in a random order, in one process
+        if rng.random() < 0.5:
+            d = rng.choice([10, 100, 1000, 8, 64, 5, 20])
+        else:
+            d = rng.choice([3, 7, 48, 96, 1000])
+        v = [rng.randint(-3 * d, 40 * d), d]
+        forms = ["fraction", "pair", "decimal", "decstr", "float", "arith", "beat"]
+        rng.shuffle(forms)
+        yield {"kind": "history", "v": v, "forms": forms[: rng.randint(2, 7)]}
     for i in range(n):
         r = i % 6
         if r == 0:
@@ -221,6 +231,42 @@ def check(ctx, case):
         _arith(ctx, case, Beat)
         return
 
+    if kind == "history":
+        n, d = case["v"]
+        exact = Fraction(n, d)
+        ctx.begin(case, nontrivial=n != 0)
+        dec_ok = all(p in (2, 5) for p in _prime_factors(exact.denominator))
+        for form in case["forms"]:
+            inexact = False
+            if form == "fraction":
+                b = Beat(Fraction(n, d))
+            elif form == "pair":
+                b = Beat(n, d)
+            elif form == "beat":
+                b = Beat(Beat(n, d))
+            elif form == "arith":
+                b = Beat(n - 1, d) + Beat(1, d)
+            elif form == "float":
+                if float(exact) != exact:
+                    continue
+                b, inexact = Beat(float(exact)), True
+            else:
+                if not dec_ok:
+                    continue
+                dv = Decimal(n) / Decimal(d)
+                if Fraction(dv) != exact:
+                    continue
+                b, inexact = (Beat(dv) if form == "decimal" else Beat(str(dv))), True
+            ctx.mon("history")
+            ctx.feat("history_" + form)
+            fb = Fraction(b.numerator, b.denominator)
+            if inexact:
+                ok = type(b) is Beat and (fb * 48).denominator == 1 and abs(fb - exact) <= Fraction(1, 96)
+            else:
+                ok = type(b) is Beat and fb == exact
+            ctx.expect(ok, "history:" + form, value=str(exact), forms=case["forms"], got=repr(b), frac=str(fb))
+        return
+
     if kind == "beatvalues":
         evs = case["events"]
         ctx.begin(case, nontrivial=bool(evs))
@@ -284,6 +330,18 @@ def check(ctx, case):
                    offset=off, got=repr(td.offset))
         return
     raise ValueError(kind)
+
+
+def _prime_factors(n):
+    out, p = set(), 2
+    while n > 1 and p * p <= n:
+        while n % p == 0:
+            out.add(p)
+            n //= p
+        p += 1
+    if n > 1:
+        out.add(n)
+    return out
 
 
 def _three_decimals(s):
